@@ -12,6 +12,7 @@
 -/
 import IvpModel.Num
 import IvpModel.Model.LU
+import IvpModel.Model.LUF
 import IvpModel.Model.RadauCtl
 import IvpModel.Gen.Radau
 
@@ -229,7 +230,7 @@ def solve (L : NLits α) (S : Setup α) (ode jac : Nat → α → Array α → A
       e2r := Array.ofFn (n := n * n) fun idx => g mass idx.val * alphn - g jm idx.val
       e2i := Array.ofFn (n := n * n) fun idx => g mass idx.val * betan
       cnt := { cnt with lu := cnt.lu + 1 }
-      match LU.decomp n n n e1 with
+      match LUF.decomp n n n e1 with
       | .error _ =>
         singular := singular + 1
         if singular > 5 then
@@ -324,7 +325,7 @@ def solve (L : NLits α) (S : Setup α) (ode jac : Nat → α → Array α → A
       z1 := (Array.range n).map fun i => g w1 i + g s1 i * fac1
       z2 := (Array.range n).map fun i => g w2 i + g s2 i * alphn - g s3 i * betan
       z3 := (Array.range n).map fun i => g w3 i + g s3 i * alphn + g s2 i * betan
-      z1 := LU.solve n e1 ip1 z1
+      z1 := LUF.solve n e1 ip1 z1
       let zc := LU.solveC n e2r e2i ip2 z2 z3
       z2 := zc.1; z3 := zc.2
       newt := newt + 1
@@ -388,7 +389,7 @@ def solve (L : NLits α) (S : Setup α) (ode jac : Nat → α → Array α → A
     let ef2 := f2
     let ff0 := f0
     let rhsE : Array α := (Array.range n).map fun i => g ef2 i + g ff0 i
-    let solE := LU.solve n e1 ip1 rhsE
+    let solE := LUF.solve n e1 ip1 rhsE
     cont := (Array.range (n * 4)).map fun k => if k < n then g solE k else g cont k
     cnt := { cnt with lu := cnt.lu + 1 }
     let mut err := errGuard L (rmsNorm L n solE scal)
@@ -400,7 +401,7 @@ def solve (L : NLits α) (S : Setup α) (ode jac : Nat → α → Array α → A
       f1 := fr
       cnt := { cnt with ode := cnt.ode + 1 }
       let rhs2 : Array α := (Array.range n).map fun i => g fr i + g ef2 i
-      let sol2 := LU.solve n e1 ip1 rhs2
+      let sol2 := LUF.solve n e1 ip1 rhs2
       cont := (Array.range (n * 4)).map fun k => if k < n then g sol2 k else g cont k
       err := errGuard L (rmsNorm L n sol2 scal)
     -- computation of hnew
